@@ -74,6 +74,30 @@ func unbrace(b string) string {
 func growthProgram(shape int, body string, n int) []string {
 	stmts := strings.Split(c09Prelude, "\n----\n")
 	b := func(v string) string { return unbrace(strings.ReplaceAll(body, "%i", v)) }
+	if shape >= 6 {
+		// while loops: condition with or without a call, body or counter last, in every position
+		k := shape - 6
+		cond := "i < %d"
+		if k&1 == 1 {
+			cond = "lt(i, %d)"
+		}
+		loop := "while " + cond + " {\n%s\ni = i + 1\n}"
+		if k&2 == 2 {
+			loop = "while " + cond + " {\ni = i + 1\n%[2]s\n}"
+		}
+		stmts = append(stmts, "lt = (a, b) -> a < b")
+		switch (k >> 2) % 4 {
+		case 0: // top level: the statement's value in result mode
+			stmts = append(stmts, "i = 0", fmt.Sprintf(loop, n, b("i")))
+		case 1: // the tail of a function
+			stmts = append(stmts, "lw = (n) -> {\ni = 0\n"+fmt.Sprintf(strings.ReplaceAll(loop, "%d", "n%.0d"), 0, b("i"))+"\n}", fmt.Sprintf("lw(%d)", n))
+		case 2: // the tail of a block, of an if
+			stmts = append(stmts, "i = 0", "{\nif true {\n"+fmt.Sprintf(loop, n, b("i"))+"\n}\n}")
+		default: // the body of a for loop in a function (value position, not the tail of the function's text)
+			stmts = append(stmts, "lw = (n) -> for q <- fromto(0, 1) {\ni = 0\n"+fmt.Sprintf(strings.ReplaceAll(loop, "%d", "n%.0d"), 0, b("i"))+"\n}", fmt.Sprintf("lw(%d)", n))
+		}
+		return stmts
+	}
 	switch shape % 6 {
 	case 0: // top level while
 		stmts = append(stmts, "i = 0", fmt.Sprintf("while i < %d {\n%s\ni = i + 1\n}", n, b("i")))
@@ -162,7 +186,7 @@ func c09Prop(rec *ev.Recorder) func(t *rapid.T) {
 	return func(t *rapid.T) {
 		if rapid.IntRange(0, 3).Draw(t, "which") == 0 {
 			c := growthCase{
-				Shape:   rapid.IntRange(0, 5).Draw(t, "shape"),
+				Shape:   rapid.IntRange(0, 21).Draw(t, "shape"),
 				Body:    rapid.SampledFrom(c09Bodies).Draw(t, "body"),
 				N:       rapid.IntRange(1, 40).Draw(t, "n"),
 				Discard: rapid.Bool().Draw(t, "discard"),
